@@ -4,6 +4,7 @@ import (
 	"bytes"
 	"fmt"
 	"io"
+	"strings"
 
 	"github.com/gregoryv/mq"
 
@@ -21,7 +22,7 @@ func init() {
 		Title: "Diagnostics never disclose credentials",
 		Level: "exploration",
 		Rule: "self-composition: for every CONNECT shape (every presence subset of the 12 non-credential top-level fields x will in {absent, minimal, full}; API-built and decoded from its own frame) and every credential length in {1,2,9} (3,4,5,20,32,33,64,65,255,256,4096,65535 on the bases), the packet is instantiated with 17 kinds of content of that length for the user name (reference password), for the password (reference user name) and for both alike: all-a, all-b, the client id, the literal stars, a format-verb string, the will topic, a user-property value, two-byte runes, three-byte runes (same byte length, fewer characters), bytes 00/ff, ill-formed UTF-8 (lone lead and continuation bytes, ff only, a rune cut off at the end), control and escape characters, quotes and braces, digits, blanks. " +
-			"Dump output and String() must be identical for all 49 instances. Histories: every sequence of exactly 3 (thorough 4) calls over 17 operations (user name of 4/9/40 bytes or empty, password of 4/9 bytes or nil, client id, auth method/data, user property, will, protocol version, String+Dump, WriteTo) is run twice with credential contents that differ in every byte; every rendering after every step must agree. Nothing else is required (dependence on emptiness and length is allowed). distinct_nontrivial = distinct (shape, length, content pair) instances rendered.",
+			"Dump output and String() must be identical for all 49 instances. Histories: every sequence of exactly 3 (thorough 4) calls over 17 operations (user name of 4/9/40 bytes or empty, password of 4/9 bytes or nil, client id, auth method/data, user property, will, protocol version, String+Dump, WriteTo) is run with every assignment of two credential contents (differing in every byte) to its credential-setting calls; every rendering after every step must agree with the reference run. The operations include UnmarshalBinary of a CONNECT body without and with credentials into the packet. Magic values: auth method and client id set to PLAIN, SCRAM-SHA-1 and every token-like string constant of the tree under test. Nothing else is required (dependence on emptiness and length is allowed). distinct_nontrivial = distinct (shape, length, content pair) instances rendered.",
 		Assumptions: []string{"only Dump and String are in scope (not %#v of the struct)", "credential contents come from 10 leak-provoking kinds; the renderer is expected to never look at content"},
 		Run:         runC18,
 		Replay:      replayC18,
@@ -244,6 +245,19 @@ func runC18(x *core.Ctx) {
 			do(full, n, "bases.other-lengths")
 		}
 	}
+	// magic values: the authentication method (and client id) set to every
+	// token-like string constant found in the tree under test
+	if x.Mine() {
+		for _, tok := range append([]string{"PLAIN", "SCRAM-SHA-1", "none"}, Mined.Strings...) {
+			for _, n := range []int{3, 9} {
+				tok, n := tok, n
+				x.Eval("mined-strings")
+				if f := c18Token(tok, n); f != nil {
+					x.Report(f, func() core.Case { return core.Case{Harness: "c18.token", Params: map[string]any{"token": tok, "n": n}} }, func() *core.Finding { return c18Token(tok, n) })
+				}
+			}
+		}
+	}
 	// histories of <= 3 (thorough 4) setter calls
 	depth := 3
 	if x.Thorough() {
@@ -314,17 +328,33 @@ var c18Ops = []c18Op{
 	{"AddUserProp(k,v)", func(p *mq.Connect, v int) { p.AddUserProp("k", "v") }},
 	{"SetWill", func(p *mq.Connect, v int) { p.SetWill(mq.Pub(1, "will/topic", "gone")) }},
 	{"SetProtocolVersion(4)", func(p *mq.Connect, v int) { p.SetProtocolVersion(4) }},
+	{"UnmarshalBinary(CONNECT without credentials)", func(p *mq.Connect, v int) { p.UnmarshalBinary(c18Body(false)) }},
+	{"UnmarshalBinary(CONNECT with credentials)", func(p *mq.Connect, v int) { p.UnmarshalBinary(c18Body(true)) }},
 	{"String+Dump", func(p *mq.Connect, v int) { _ = p.String(); mq.Dump(io.Discard, p) }},
 	{"WriteTo", func(p *mq.Connect, v int) { p.WriteTo(io.Discard) }},
 }
 
-func c18HistoryRun(path []int, variant int) ([]string, string) {
+// c18HistoryRun: bit i of mask selects the content variant of the i-th call
+// of the sequence (only credential setters look at it).
+// c18Body: the body of a small CONNECT frame, without or with (fixed, the
+// same in both runs) credentials.
+func c18Body(creds bool) []byte {
+	p := &spec.Packet{Type: 1, ProtoName: []byte("MQTT"), ProtoVer: 5, ClientID: []byte("dec")}
+	if creds {
+		p.HasUser, p.User, p.HasPass, p.Pass = true, []byte("wire-user"), true, []byte("wire-pass")
+	}
+	b := mustEncode(p, spec.Form{})
+	return b[c06HeaderLen(b):]
+}
+
+func c18HistoryRun(path []int, mask int) ([]string, string) {
 	resetGlobals()
 	p := mq.NewConnect()
 	var outs []string
-	for _, oi := range path {
+	for i, oi := range path {
 		var dump bytes.Buffer
 		var s string
+		variant := (mask >> uint(i)) & 1
 		res := guarded(0, func() {
 			c18Ops[oi].Do(p, variant)
 			mq.Dump(&dump, p)
@@ -340,9 +370,33 @@ func c18HistoryRun(path []int, variant int) ([]string, string) {
 
 func c18History(path []int) *core.Finding {
 	a, pa := c18HistoryRun(path, 0)
-	b, pb := c18HistoryRun(path, 1)
-	if pa != "" || pb != "" {
+	if pa != "" {
 		return nil // a panic is C19's business
+	}
+	// every assignment of the two content variants to the calls of the
+	// sequence (so that "the same secret again" and "another secret of the
+	// same length" are both compared with the reference run)
+	for mask := 1; mask < 1<<uint(len(path)); mask++ {
+		cred := false
+		for i, oi := range path {
+			if mask>>uint(i)&1 == 1 && !strings.HasPrefix(c18Ops[oi].Name, "SetUsername(") && !strings.HasPrefix(c18Ops[oi].Name, "SetPassword(") {
+				cred = true // a bit on a call that ignores it: same run as with the bit clear
+			}
+		}
+		if cred {
+			continue
+		}
+		if f := c18Compare(path, a, mask); f != nil {
+			return f
+		}
+	}
+	return nil
+}
+
+func c18Compare(path []int, a []string, mask int) *core.Finding {
+	b, pb := c18HistoryRun(path, mask)
+	if pb != "" {
+		return nil
 	}
 	for i := range a {
 		if a[i] != b[i] {
@@ -356,7 +410,46 @@ func c18History(path []int) *core.Finding {
 				names += c18Ops[oi].Name + " "
 			}
 			return &core.Finding{Class: which + "-depends-on-credentials/history",
-				Detail: fmt.Sprintf("CONNECT after [%s]: %s output differs between two runs whose credentials differ only in content: %q vs %q", names, which, clip(firstDiff(a[i], b[i]), 120), clip(firstDiff(b[i], a[i]), 120))}
+				Detail: fmt.Sprintf("CONNECT after [%s]: %s output differs between two runs whose credentials differ only in content (second run: other content in the calls of bit mask %b): %q vs %q", names, which, mask, clip(firstDiff(a[i], b[i]), 120), clip(firstDiff(b[i], a[i]), 120))}
+		}
+	}
+	return nil
+}
+
+// c18Token: CONNECT with the auth method / client id / protocol name set to
+// tok, with and without auth data, credentials of n bytes in two contents.
+func c18Token(tok string, n int) *core.Finding {
+	render := func(slot, variant int, withData bool) string {
+		resetGlobals()
+		c := mq.NewConnect()
+		switch slot {
+		case 0:
+			c.SetAuthMethod(tok)
+		case 1:
+			c.SetClientID(tok)
+		case 2:
+			c.SetAuthMethod(tok)
+			c.SetClientID(tok)
+		}
+		if withData {
+			c.SetAuthData([]byte("d"))
+		}
+		c.SetUsername(credVariant(n, variant))
+		c.SetPassword([]byte(credVariant(n, 1-variant)))
+		var dump bytes.Buffer
+		var s string
+		if res := guarded(0, func() { mq.Dump(&dump, c); s = c.String() }); res.Panic != "" {
+			return "panic"
+		}
+		return dump.String() + "\x00" + s
+	}
+	for slot := 0; slot < 3; slot++ {
+		for _, wd := range []bool{false, true} {
+			a, b := render(slot, 0, wd), render(slot, 1, wd)
+			if a != b && a != "panic" && b != "panic" {
+				return &core.Finding{Class: "depends-on-credentials/magic-value",
+					Detail: fmt.Sprintf("CONNECT with %q as auth method/client id (slot %d, auth data %v), credentials of %d bytes: output differs with their content: %q vs %q", tok, slot, wd, n, clip(firstDiff(a, b), 120), clip(firstDiff(b, a), 120))}
+			}
 		}
 	}
 	return nil
@@ -365,6 +458,9 @@ func c18History(path []int) *core.Finding {
 func replayC18(c core.Case) *core.Finding {
 	if c.Harness == "c18.history" {
 		return c18History(c.Choices)
+	}
+	if c.Harness == "c18.token" {
+		return c18Token(paramStr(c.Params, "token"), paramInt(c.Params, "n"))
 	}
 	raw, _ := c.Params["vec"].([]any)
 	v := make(gen.Vec, len(raw))
